@@ -227,39 +227,69 @@ def judge(cmds, prop, res=None):
     return bad, run
 
 
-def dup_symptom(cmds):
-    """'dup' if two assertions / named sub-terms made anywhere in the script (popped ones included) are
-    logically equivalent: opensmt identifies assertions by their (simplified) term, so such scripts hit the
-    known 'one formula asserted or named twice' limitation; everything else is 'nodup'."""
-    terms = []
-    for c in cmds:
-        if c["k"] == "assert":
-            terms.append(strip_named(c["term"]))
-            terms += [strip_named(t) for _, t in names_in(c["term"])][1 if c["term"].op == "!" else 0:]
+def dup_symptom(cmds, upto=None):
+    """'dup' if two assertions / named sub-terms that are on the assertion stack together (at command #upto, default: at any
+    time) are logically equivalent: opensmt identifies assertions by their (simplified) term, so such scripts hit the known
+    'one formula asserted or named twice' limitation.  'poppedeq' if a current assertion is only equivalent to one that was
+    popped before (a different situation: the popped one must leave no trace).  Everything else is 'nodup'."""
+    levels = [[]]
+    allterms = []          # (term text, serial)
+    pairs_cur, pairs_pop = set(), set()
+    live = {}
+    serial = 0
+    popped = []
+
+    def add(t):
+        nonlocal serial
+        txt = to_smt(t, "ref")
+        for k, (otxt, _) in live.items():
+            pairs_cur.add((otxt, txt))
+        for otxt in popped:
+            pairs_pop.add((otxt, txt))
+        live[serial] = (txt, len(levels) - 1)
+        levels[-1].append(serial)
+        serial += 1
+
+    for idx, c in enumerate(cmds):
+        if upto is not None and idx > upto:
+            break
+        if c["k"] == "push":
+            for _ in range(c["n"]):
+                levels.append([])
+        elif c["k"] == "pop":
+            for _ in range(min(c["n"], len(levels) - 1)):
+                for sid in levels.pop():
+                    popped.append(live.pop(sid)[0])
+        elif c["k"] == "assert":
+            add(strip_named(c["term"]))
+            for t in [strip_named(t) for _, t in names_in(c["term"])][1 if c["term"].op == "!" else 0:]:
+                add(t)
     decls = [gen.cmd_text(c, "ref") for c in sr.decls_of(cmds)] + \
             [gen.cmd_text(c, "ref") for c in cmds if c["k"] == "define-fun"]
-    txt = [to_smt(t, "ref") for t in terms]
-    for i in range(len(txt)):
-        for j in range(i + 1, len(txt)):
-            if txt[i] == txt[j]:
-                return "dup"
-    txt = txt[:14]
-    for i in range(len(txt)):
-        for j in range(i + 1, len(txt)):
-            q = refs.quick("\n".join(decls + ["(assert (not (= %s %s)))" % (txt[i], txt[j])]))
-            if q == "unsat":
-                return "dup"
+
+    def equivalent(pairs):
+        if any(a == b for a, b in pairs):
+            return True
+        for a, b in list(pairs)[:90]:
+            if refs.quick("\n".join(decls + ["(assert (not (= %s %s)))" % (a, b)])) == "unsat":
+                return True
+        return False
+    if equivalent(pairs_cur):
+        return "dup"
+    if equivalent(pairs_pop):
+        return "poppedeq"
     return "nodup"
 
 
 def site_for(cls, cmds, b=None):
     if cls.startswith("core-refused"):
         return "any"
+    upto = b[0] if b is not None and isinstance(b[0], int) else None
     if b is not None and len(b) > 3:
-        return site_for_(cls, cmds) + ":" + dup_symptom(cmds) + ":" + b[3]
+        return site_for_(cls, cmds) + ":" + dup_symptom(cmds, upto) + ":" + b[3]
     if cls.startswith("core-satisfiable") or cls.startswith("core-reducible") or cls.startswith("core-name-not") \
             or cls.startswith("full-core-formula"):
-        return site_for_(cls, cmds) + ":" + dup_symptom(cmds)
+        return site_for_(cls, cmds) + ":" + dup_symptom(cmds, upto)
     return site_for_(cls, cmds)
 
 
